@@ -852,3 +852,171 @@ func ruleEscapeSites(c *Ctx, r *Report) {
 	}
 	r.OK("W-ESC", key, c.Pos(dec.Pos()), fmt.Sprintf("%d places where the encoder may write the 24-bit escape, %d where the decoder may read it", w, rd))
 }
+
+// ---- G3X: an index that ranges over one slice used on another ---------------------------------------------
+
+type crossIdx struct {
+	f   *ssa.Function
+	ia  *ssa.IndexAddr
+	A   ssa.Value // the slice whose length bounds the counter
+	why string
+}
+
+func crossIndexSites(f *ssa.Function) []crossIdx {
+	var out []crossIdx
+	for _, b := range f.Blocks {
+		for _, ins := range b.Instrs {
+			ia, ok := ins.(*ssa.IndexAddr)
+			if !ok {
+				continue
+			}
+			if _, isSl := ia.X.Type().Underlying().(*types.Slice); !isSl {
+				continue
+			}
+			bound, incl, ok := inductionBound(ia.Index)
+			if !ok {
+				bound, ok = rangeIndexBound(ia.Index)
+				incl = false
+			}
+			if !ok || incl {
+				continue
+			}
+			call, ok := stripConv(bound).(*ssa.Call)
+			if !ok {
+				continue
+			}
+			bi, ok := call.Call.Value.(*ssa.Builtin)
+			if !ok || bi.Name() != "len" {
+				continue
+			}
+			A := call.Call.Args[0]
+			if sameSSA(A, ia.X) || sliceOrigin(f, ia.X, 0) != nil {
+				continue
+			}
+			out = append(out, crossIdx{f: f, ia: ia, A: A})
+		}
+	}
+	return out
+}
+
+// crossIdxGuard: a dominating test establishes len(X) >= len(A) (or equality).
+func crossIdxGuard(u crossIdx) string {
+	why := ""
+	id := newCanon()
+	hasDominatingTest(u.ia.Index, u.ia.Block(), func(cond ssa.Value, truth bool) bool {
+		bo, ok := cond.(*ssa.BinOp)
+		if !ok {
+			return false
+		}
+		lenOf := func(v ssa.Value, s ssa.Value) bool { return isLenOf(stripConv(v), s) }
+		if bo.Op == token.EQL || bo.Op == token.NEQ {
+			eq := (bo.Op == token.EQL) == truth
+			if eq && ((lenOf(bo.X, u.A) && lenOf(bo.Y, u.ia.X)) || (lenOf(bo.Y, u.A) && lenOf(bo.X, u.ia.X))) {
+				why = "the two lengths are tested equal before the loop"
+				return true
+			}
+			return false
+		}
+		lf, ok := lenBoundFact(cond, truth, u.ia.X, id)
+		if !ok || len(lf.cs) != 1 || lf.k < 0 {
+			return false
+		}
+		for leaf, cf := range lf.cs {
+			if cf == 1 && isLenOf(leaf, u.A) {
+				why = "a dominating test establishes that the indexed slice is at least as long as the one the counter ranges over"
+				return true
+			}
+		}
+		return false
+	})
+	return why
+}
+
+func init() {
+	Registry["WCROSSIDX"] = func(c *Ctx, r *Report) {
+		s4, _ := scopeFrom(c, entriesC04(c))
+		var fns []*ssa.Function
+		for f := range s4 {
+			fns = append(fns, f)
+		}
+		sort.Slice(fns, func(i, j int) bool { return fns[i].String() < fns[j].String() })
+		n, g := 0, 0
+		for _, f := range fns {
+			if f.Synthetic != "" {
+				continue
+			}
+			for _, u := range crossIndexSites(f) {
+				n++
+				w := crossIdxGuard(u)
+				if w != "" {
+					g++
+				}
+				fmt.Printf("%s %s %s guarded=%q\n", c.Pos(u.ia.Pos()), SSAFuncName(f), sliceText(c, f, u.ia.Pos()), w)
+			}
+		}
+		fmt.Println("cross index sites", n, "guarded", g)
+	}
+}
+
+// ruleG3X — an index that counts up to the length of one slice is used on another slice only under a dominating test
+// that the other is at least as long (or that the two lengths are equal). Scope: the decode side (functions that are
+// not Encode/EncodeSW/Info/Size methods, whose parallel slices are the structure invariants E9 and G4's
+// same-length invariants cover).
+func ruleG3X(c *Ctx, r *Report, scope map[*ssa.Function]bool) int {
+	var fns []*ssa.Function
+	for f := range scope {
+		fns = append(fns, f)
+	}
+	sort.Slice(fns, func(i, j int) bool { return fns[i].String() < fns[j].String() })
+	n := 0
+	seen := map[string]int{}
+	for _, f := range fns {
+		if f.Synthetic != "" {
+			continue
+		}
+		switch f.Name() {
+		case "Encode", "EncodeSW", "Info", "Size", "String":
+			continue
+		}
+		for _, u := range crossIndexSites(f) {
+			n++
+			key := fmt.Sprintf("%s:%s[i] for i < len(other)", SSAFuncName(f), sliceText(c, f, u.ia.Pos()))
+			seen[key]++
+			if seen[key] > 1 {
+				key += fmt.Sprintf("#%d", seen[key])
+			}
+			if why := crossIdxGuard(u); why != "" {
+				r.OK("G3X", key, c.Pos(u.ia.Pos()), why)
+			} else {
+				r.Bad("G3X", key, c.Pos(u.ia.Pos()), "the index counts up to the length of another slice and no dominating test shows this one to be at least as long: index out of range when it is shorter")
+			}
+		}
+	}
+	return n
+}
+
+// rangeIndexBound: idx is the index variable of a `for i := range s` loop as go/ssa builds it (a phi starting at -1,
+// incremented and compared with len(s) in the loop head); returns the bound.
+func rangeIndexBound(idx ssa.Value) (ssa.Value, bool) {
+	add, ok := stripConv(idx).(*ssa.BinOp)
+	if !ok || add.Op != token.ADD {
+		return nil, false
+	}
+	phi, ok := add.X.(*ssa.Phi)
+	if !ok || phi.Comment != "rangeindex" {
+		return nil, false
+	}
+	blk := add.Block()
+	if len(blk.Instrs) == 0 {
+		return nil, false
+	}
+	ifi, ok := blk.Instrs[len(blk.Instrs)-1].(*ssa.If)
+	if !ok {
+		return nil, false
+	}
+	cmp, ok := ifi.Cond.(*ssa.BinOp)
+	if !ok || cmp.Op != token.LSS || cmp.X != ssa.Value(add) {
+		return nil, false
+	}
+	return cmp.Y, true
+}
